@@ -21,6 +21,9 @@ type Unit struct {
 	// nested inside it where the value is DECODED can only be an error
 	Hostile bool // the head claims a length no input can honour (0xFFFFFFFF80000000 = math.MinInt32 as an int32, the
 	// containerLenNil sentinel): the only acceptable outcome is an error, at every depth
+	Ill bool // not a legitimate nesting unit (illformed.go): nested to MaxDepth or beyond, the only acceptable outcomes
+	// are an error or a result reached without recursion
+	Lenient bool // Ill, and the unchanged skip walker gets past it in a loop (no recursion): judged by the wire model and the stack cap
 }
 
 // MinInt32Len is the 64-bit length whose low 32 bits are math.MinInt32 (containerLenNil) once truncated.
@@ -278,6 +281,11 @@ func PathByName(n string) Path {
 			return p
 		}
 	}
+	for _, p := range extraPaths {
+		if p.Name == n {
+			return p
+		}
+	}
 	panic("no path " + n)
 }
 
@@ -329,6 +337,10 @@ func (p Path) Dest(o Opts) interface{} {
 		return new(map[string]interface{})
 	case "slicei":
 		return new([]interface{})
+	case "bytes":
+		return new([]byte)
+	case "string":
+		return new(string)
 	}
 	panic("no dest")
 }
